@@ -190,6 +190,8 @@ class scrypt(KDFAdapter):
 
 class blake2b(KDFAdapter, MACAdapter, HashAdapter):
     def __init__(self, *, length=64):
+        if length not in range(1, hashlib.blake2b.MAX_DIGEST_SIZE + 1):
+            raise ValueError('Invalid digest size')
         self.digest_size = length
 
     def generate_derivation_params(self):
